@@ -9,6 +9,8 @@ def instances(tier):
         out.append((T, 'VH_C16_Message', [k, i, b, vb], {'weight': 30}))
     for (i, b, fb) in ([(0, 0, 0), (0, 1, 2), (1, 0, 3), (2, 1, 8)] if tier == 'quick' else [(i, b, fb) for i in (0, 1, 2) for b in (0, 1) for fb in (0, 1, 3, 8)]):
         out.append((T, 'VH_C16_normalized', [i, b, fb], {'weight': 40}))
+    for (im, stt) in ([(1, 0), (1, 2)] if tier == 'quick' else [(1, 0), (1, 1), (1, 2), (1, 3), (0, 2)]):   # (0, *) includes SourceBoc: ~6 min
+        out.append((T, 'VH_C16_transaction', [im, stt], {'weight': 3000 if im == 0 else 60}))
     for k in ((1,) if tier == 'quick' else (0, 1, 2)):
         out.append((T, 'VH_C16_message_in_proof', [k], {'weight': 60}))
     return out
@@ -16,8 +18,8 @@ def instances(tier):
 
 CHECK = dict(
     id='C16', pkgs=['tlb'], init_pkgs=['std:io', 'boc', 'tlb'], instances=instances, opts={'budget_s': 1500},
-    level_text='Messages of all three kinds built from symbolic leaves (addresses, amounts, times, init code/data, body bits) are encoded with the real reflection codec, decoded with Message.UnmarshalTLB with and without a caching hasher (cold and warm): the reported hash equals the representation hash of the source cell, the decoded fields are equal, re-encoding has the same hash; a message decoded out of a Merkle proof whose body was pruned (cell of level 1, built with the real MerkleProver and parsed back) reports its representation hash without a hasher and with a hasher that already cached the whole proof; the normalised hash of ext-in messages equals the hash of the canonical form for every import fee, init placement and body placement.',
-    level_note='SHA-256 is an ideal hash (uninterpreted, collision-free): the check decides that the byte sequences hashed are the same, not anything about SHA-256. Transaction.Hash/SourceBoc and mainnet fixtures are outside this check.',
+    level_text='Messages of all three kinds built from symbolic leaves (addresses, amounts, times, init code/data, body bits) are encoded with the real reflection codec, decoded with Message.UnmarshalTLB with and without a caching hasher (cold and warm): the reported hash equals the representation hash of the source cell, the decoded fields are equal, re-encoding has the same hash; a message decoded out of a Merkle proof whose body was pruned (cell of level 1, built with the real MerkleProver and parsed back) reports its representation hash without a hasher and with a hasher that already cached the whole proof; a transaction cell laid out by hand from block.tlb (storage-only description, optional inbound external message): Transaction.UnmarshalTLB reports the representation hash of the source cell with and without a caching hasher, the scalar fields are the ones laid out, the inbound message decoded inside it reports the hash of its own cell (thorough: SourceBoc() parses back to a cell with the transaction hash); the normalised hash of ext-in messages equals the hash of the canonical form for every import fee, init placement and body placement.',
+    level_note='SHA-256 is an ideal hash (uninterpreted, collision-free): the check decides that the byte sequences hashed are the same, not anything about SHA-256. Mainnet fixtures are outside this check; SourceBoc is in the thorough tier only.',
     bounds={'leaves': 'std addresses (all workchains/hashes), amounts of the stated byte sizes, 8-bit code/data cells, 12-bit body', 'structure': 'kind x init{none,inline,ref} x body{inline,ref}'},
-    outside_claim=['Transaction.UnmarshalTLB / SourceBoc', 'messages with anycast or extra currencies', 'mainnet transactions', 'real SHA-256'],
+    outside_claim=['transactions with out-messages / ordinary descriptions', 'messages with anycast or extra currencies', 'mainnet transactions', 'real SHA-256'],
 )
